@@ -98,8 +98,7 @@ fn one_iteration(mathml: Element, nav_command: &'static str, context: &Context, 
         None => NavigationPosition::default(),
         Some(node) => NavigationPosition { current_node: node, current_node_offset: context_get_variable(context, "NavNodeOffset", mathml)?.1.unwrap() as usize }
     };
-    PUSH_BLOCK
-    SET_MARKER_BLOCK
+    RULE_TAIL_SEGMENT
     Ok(())
 }
 
@@ -113,7 +112,12 @@ fn step(ci: usize, st: &mut RefMut<NavigationState>, ctx: &Context) {
     let _ = match ci {
         1 => one_iteration(Element, "MoveNext", ctx, st),
         2 => one_iteration(Element, "ZoomIn", ctx, st),
-        3 => one_iteration(Element, "MoveLastLocation", ctx, st),
+        3 => {
+            // the statement of do_navigate_command_string that starts an undo, then the rule application
+            let nav_command = "MoveLastLocation";
+            { let nav_state = &mut *st; MOVE_LAST_BLOCK }
+            one_iteration(Element, nav_command, ctx, st)
+        },
         4 => one_iteration(Element, "ReadNext", ctx, st),
         5 => one_iteration(Element, "DescribeCurrent", ctx, st),
         6 => one_iteration(Element, "WhereAmI", ctx, st),
@@ -136,9 +140,10 @@ HARNESS(one_rule_application_keeps_invariants, 18, [std::time::Instant::now => s
     cover!(ci == 1 && s.position_stack.len() == n + 1, "a move that pushes reachable");
     cover!(ci == 4, "read command reachable");
     assert!(s.position_stack.len() == s.command_stack.len(), "position and command stacks out of sync");
-    assert!(s.position_stack.len() == n || s.position_stack.len() == n + 1, "stack changed by something other than one push");
+    let base = if ci == 3 { n - 1 } else { n };                                // an undo pops one entry first
+    assert!(s.position_stack.len() == base || (ci < 3 && s.position_stack.len() == base + 1), "stack changed by something other than one push (an undo must only pop)");
     let after = top_of(&s);
-    if ci >= 3 { assert!(after == before && s.position_stack.len() == n, "a read/describe/where-am-i/set-placemarker command moved the position"); }
+    if ci > 3 { assert!(after == before && s.position_stack.len() == n, "a read/describe/where-am-i/set-placemarker command moved the position"); }
     assert!(after.0 != b'!', "the illegal node id became the current position");
     assert!(bottom_cmd_is_none(&s), "bottom entry lost");
     core::mem::forget(s); core::mem::forget(ctx);
@@ -261,14 +266,19 @@ def _build(run, crate_name, only_kernel=False):
     cmd_fn = nav.find("fn do_navigate_command_string")
     apply_fn = cmd_fn.find("fn apply_navigation_rules")
     pop_stack = cmd_fn.find("fn pop_stack")
-    push_block = nav.find_expr('if ( nav_command . starts_with ( "Move" ) || nav_command . starts_with ( "Zoom" ) ) && nav_command != "MoveLastLocation"', within=apply_fn)
-    marker_block = nav.find_expr('if nav_command . starts_with ( "SetPlacemarker" )', within=apply_fn)
+    # the statements of apply_navigation_rules between the rule results being read and the landing node being spoken: they push the new
+    # position and set place markers (anchored on the let statements around them, so a rewritten condition is still followed)
+    s_a = nav.find_stmt("let use_read_rules =", within=apply_fn)
+    s_b = nav.find_stmt("let nav_mathml = get_node_by_id", within=apply_fn)
+    push_block = slicer.Span(nav, s_a.end, s_b.start, "apply_navigation_rules::push_and_placemarker_statements")
+    if "nav_state . push (" not in " ".join(t.text for t in slicer.lex(push_block.text) if t.kind != "comment") or "place_markers" not in push_block.text:
+        raise slicer.SliceError("the push / set-placemarker statements are no longer between `let use_read_rules` and `let nav_mathml`")
     move_last = nav.find_expr('if nav_command == "MoveLastLocation"', within=cmd_fn)
     set_mathml = itf.find("fn set_mathml")
     new_expr = itf.find_expr("| nav_stack |", within=set_mathml)
     set_node_fn = nav.find("fn set_navigation_node_from_id")
     set_node = nav.find_expr("| nav_state |", within=set_node_fn)
-    run.uses(*items, *methods, *rst, pop_stack, push_block, marker_block, move_last, new_expr, set_node)
+    run.uses(*items, *methods, *rst, pop_stack, push_block, move_last, new_expr, set_node)
     # extra impl methods that the new-expression block may call (e.g. a method added by a repair)
     extra = []
     import re
@@ -281,8 +291,12 @@ def _build(run, crate_name, only_kernel=False):
     body = prelude.STR_STUBS + prelude.MINIVEC + SHIMS + "\n".join(i.text for i in items) + "\nimpl NavigationState {\n" + \
         "\n".join(m.text for m in methods + rst + extra) + "\n}\n" + \
         HARNESS.replace("NEW_EXPR_BLOCK", new_block).replace("SET_NODE_BLOCK", set_block.replace("nav_state.borrow_mut()", "nav_state.borrow_mut()")) \
-        .replace("POP_STACK_FN", pop_stack.text).replace("PUSH_BLOCK", push_block.text).replace("SET_MARKER_BLOCK", marker_block.text) \
+        .replace("POP_STACK_FN", pop_stack.text).replace("RULE_TAIL_SEGMENT", push_block.text) \
         .replace("MOVE_LAST_BLOCK", move_last.text)
+    # free functions of navigate.rs that the sliced statements call and the harness does not define (e.g. a predicate factored out of a condition)
+    helpers = slicer.called_helpers(nav, push_block.text + pop_stack.text + move_last.text, body)
+    run.uses(*helpers)
+    body += "\n" + "\n".join(h.text for h in helpers)
     body = body.replace("#[derive(Debug, Clone)]\npub struct NavigationState", "#[derive(Clone)]\npub struct NavigationState")
     crate = kani_run.Crate(crate_name, body)
     run.bound("K-C11-a", "pre-state: stacks of length 0..2 (equal lengths: the representation invariant asserted by pop()), ids from {a, b, ILLEGAL}, one arbitrary place marker and where_am_i; "
